@@ -27,7 +27,9 @@ for p in PROPS:
         "engine": "lean4-proof+correspondence",
         "level_claimed": {"category": "proof", "text": text, "design_ref": "DESIGN.md Part I section C (theorems as proved) and Part II section 6, " + pid},
         "level_note": registry.LEVEL_NOTE.get(pid, registry.DEFAULT_NOTE),
-        "technique": "Lean 4 theorems about an executable model (kernel-checked, axioms audited) + differential correspondence check model vs. real library (ASan/UBSan harness) on generated operation scripts",
+        "technique": "Lean 4 theorems about an executable model (kernel-checked, axioms audited) + differential correspondence check model vs. real library (ASan/UBSan harness, -O0) on generated operation scripts"
+                     + ("; the byte-level functions involved are TRANSLATED from the C++ source (typed clang AST -> Lean, vlib/srctrans.py) on every run and proved equal to the model's definitions for all inputs (Props/SrcTie*.lean, Props/SrcFields*.lean)"
+                        if any(".Src" in t for t in spec.lean_targets) else ""),
     })
 man = {
     "version": 1,
